@@ -111,7 +111,7 @@ def states(out, idx, results=True):
     return seq
 
 
-def compare(go, lean, idx=ALL, results=True, restok=None):
+def compare(go, lean, idx=ALL, results=True, restok=None, lobs_idx=None):
     """go, lean: dict id -> output line. Returns list of (id, op index, go part, lean part)."""
     dis = []
     for i, g in go.items():
@@ -122,7 +122,11 @@ def compare(go, lean, idx=ALL, results=True, restok=None):
         if g == l:
             continue
         if "=" not in g and "=" not in l:
-            # leaf line
+            # leaf line; an LOBS leaf is an observation and is projected like one
+            if g.count("|") == 18 and l.count("|") == 18 and idx is not ALL:
+                li = lobs_idx if lobs_idx is not None else [k for k in idx if k < 19]
+                if project_obs(g, li) == project_obs(l, li):
+                    continue
             dis.append((i, 0, g, l))
             continue
         sg, sl = states(g, idx, results), states(l, idx, results)
